@@ -336,7 +336,7 @@ def accuracy_dense(n, r, seed, kind, order, near):
     A1, A2 = _flt(np.asarray(D1, dtype=object).astype(float) if _exact(D1) else D1), \
         _flt(np.asarray(D2, dtype=object).astype(float) if _exact(D2) else D2)
     gn = teneva.accuracy(A1, A2)
-    if abs(gn - want) > 64 * EPS * (want + math.sqrt(T1 / float(S2))):
+    if not abs(gn - want) <= 64 * EPS * (want + math.sqrt(T1 / float(S2))):
         return FAIL(f'accuracy(ndarray) {gn} vs {want}')
     # data set: all indices (or a seeded subset), data = other tensor
     I = gen.all_indices(n)
